@@ -51,6 +51,7 @@ type Contract struct {
 	LoopInv    map[int][]*Clause
 	LoopDec    map[int]*Clause
 	LoopMod    map[int][]*Clause // precise frame of a loop: only these locations (and fresh objects) change
+	LoopAssume map[int][]*Clause // facts about the environment assumed at the head of a loop (never proved; listed as assumptions)
 	Asserts    []*Clause
 	Musts      []*Clause // must@<anchor>: the anchored instruction is executed on every exit path satisfying the condition
 	Pure       bool
@@ -471,6 +472,9 @@ func (db *SpecDB) LoadFile(path, defaultPkg string, lib bool) error {
 						cur.LoopInv[id] = append(cur.LoopInv[id], cl)
 					case "decreases":
 						cur.LoopDec[id] = cl
+					case "assumes":
+						cl.Kind = "loopassume" // evaluated over the locals at the loop head, like an invariant
+						cur.LoopAssume[id] = append(cur.LoopAssume[id], cl)
 					default:
 						fail(l.no, "unknown loop clause %q", k2)
 					}
@@ -594,7 +598,7 @@ func parseHeader(hdr, pkg string) (*Contract, error) {
 	if !ok {
 		return nil, fmt.Errorf("contract header %q: not a function", hdr)
 	}
-	c := &Contract{Pkg: pkg, Header: hdr, LoopInv: map[int][]*Clause{}, LoopDec: map[int]*Clause{}, LoopMod: map[int][]*Clause{}}
+	c := &Contract{Pkg: pkg, Header: hdr, LoopInv: map[int][]*Clause{}, LoopDec: map[int]*Clause{}, LoopMod: map[int][]*Clause{}, LoopAssume: map[int][]*Clause{}}
 	name := fd.Name.Name
 	// anonymous functions: "parent__1" names the first closure of parent (go/ssa: parent$1)
 	if i := strings.LastIndex(name, "__"); i > 0 {
